@@ -97,7 +97,8 @@ ResolveAttrs(s, ns, attrs) ==
                 [type |-> rs[i].v, opt |-> attrs[i].opt, annos |-> AnnoSet(attrs[i].annos)]]])
 ResolveType(s, ns, t) ==
   CASE t.t \in {"string", "long", "bool"} -> OkV([t |-> t.t])
-    [] t.t = "ext" -> OkV([t |-> "ext", name |-> t.name])
+    [] t.t = "ext" -> IF t.name \in {"ipaddr", "decimal", "datetime", "duration"} THEN OkV([t |-> "ext", name |-> t.name])
+                      ELSE Fail     \* the language has four extension types
     [] t.t = "set" -> (LET e == ResolveType(s, ns, t.el) IN IF e.ok THEN OkV([t |-> "set", el |-> e.v]) ELSE Fail)
     [] t.t = "rec" -> ResolveAttrs(s, ns, t.attrs)
     [] t.t = "entref" -> (LET e == EntityRef(s, ns, [q |-> t.q, n |-> t.n]) IN IF e.ok THEN OkV([t |-> "entity", name |-> e.v]) ELSE Fail)
